@@ -540,7 +540,7 @@ def parse_module(text):
             p = P(toks[3:], mod)
             mod.types[name] = p.type()
             i += 1; continue
-        if s.startswith("@"):
+        if s.startswith("@") and not re.search(r"=\s*(?:[a-z_]+\s+)*alias\b", s):
             _parse_global(s, mod)
             i += 1; continue
         if s.startswith("declare"):
@@ -587,7 +587,9 @@ def parse_module(text):
                 i += 1
             mod.funcs[name] = fn
             continue
-        if " = alias " in s or " = ifunc " in s:
+        if " alias " in s and s.startswith("@"):
+            m = re.match(r'^(@"(?:[^"\\]|\\.)*"|@[-a-zA-Z$._0-9]+) = .*\balias\b.*(@"(?:[^"\\]|\\.)*"|@[-a-zA-Z$._0-9]+)\s*$', s)
+            if m: mod.aliases[_unq(m.group(1))] = _unq(m.group(2))
             i += 1; continue
         raise IRUnsupported("top-level line %r" % s[:80])
     return mod
